@@ -556,6 +556,31 @@ func ghostTypeKeys(t types.Type) []string {
 	return keys
 }
 
+// findGhost resolves a ghost field on a value of Go type t: first by the type's own names,
+// then (interfaces embedding other interfaces, e.g. hash.Hash64 embedding io.Writer) by a
+// field name that is declared exactly once.
+func (env *Env) findGhost(t types.Type, name string) *GhostField {
+	for _, k := range ghostTypeKeys(t) {
+		if g, ok := env.ex.ctx.specs.Ghosts[k+"."+name]; ok {
+			return g
+		}
+	}
+	var found *GhostField
+	n := 0
+	for _, g := range env.ex.ctx.specs.Ghosts {
+		if g.Name == name {
+			found = g
+			n++
+		}
+	}
+	if n == 1 && t != nil {
+		if _, isIface := t.Underlying().(*types.Interface); isIface {
+			return found
+		}
+	}
+	return nil
+}
+
 func (env *Env) ghostSort(g *GhostField) (string, types.Type) {
 	if s, ok := logicalSort(g.Sort); ok {
 		return s, nil
@@ -606,8 +631,8 @@ func (env *Env) sel(x *ESel) (EV, error) {
 		return EV{}, fmt.Errorf("unsupported package member %s", x.Name)
 	}
 	// ghost fields first (they may be declared on interfaces and library types)
-	for _, k := range ghostTypeKeys(v.T) {
-		if g, ok := ex.ctx.specs.Ghosts[k+"."+x.Name]; ok {
+	if g := env.findGhost(v.T, x.Name); g != nil {
+		{
 			var ref Term
 			switch r := v.V.(type) {
 			case IfaceV:
@@ -715,7 +740,8 @@ func (env *Env) index(x *EIndex) (EV, error) {
 				if kindOf(mi.vt) == KStruct {
 					return EV{V: StructRefV{ex.mapElemRef(mi, p, i)}, T: mi.vt}, nil
 				}
-				return EV{V: ex.mapValue(env.st, mi, p, i), T: mi.vt}, nil
+				has := Select(Select(ex.mapDom(env.st, mi), p), i)
+				return EV{V: ex.iteVal(has, ex.mapValue(env.st, mi, p, i), ex.zeroVal(env.st, mi.vt), mi.vt), T: mi.vt}, nil
 			}
 		}
 		if strings.HasPrefix(p.Sort, "(Array") {
